@@ -1765,13 +1765,20 @@ func (s *Store) ExecuteTransaction(transaction *Transaction) error {
 func (s *Store) executeTransactionLocked(transaction *Transaction) (map[string]int64, error) {
 	datasets := make(map[string]*Dataset)
 
-	// lock the datasets in one global order (by name): two transactions naming the same datasets
-	// must not take the locks in opposite orders
+	// lock the datasets in one global order (by name, core.Dataset last): two transactions naming
+	// the same datasets must not take the locks in opposite orders. core.Dataset comes last because
+	// a batch written to any other dataset updates that dataset's item count in core.Dataset while
+	// it still holds the dataset's own lock
 	datasetNames := make([]string, 0, len(transaction.DatasetEntities))
 	for k := range transaction.DatasetEntities {
 		datasetNames = append(datasetNames, k)
 	}
-	sort.Strings(datasetNames)
+	sort.Slice(datasetNames, func(i, j int) bool {
+		if (datasetNames[i] == datasetCore) != (datasetNames[j] == datasetCore) {
+			return datasetNames[j] == datasetCore
+		}
+		return datasetNames[i] < datasetNames[j]
+	})
 
 	for _, k := range datasetNames {
 		dataset, ok := s.datasets.Load(k)
